@@ -13,7 +13,10 @@ META = dict(
          "receives the faulty bytes, the outer two send two valid keep-alive requests each; serviceAll is called repeatedly.  Required: "
          "serviceAll never raises, the healthy connections receive exactly their correct responses in both rounds, and the faulty connection "
          "ends up answered, still waiting, or closed and removed.  Client: a real Patron sends a request to a harness-played server that answers "
-         "with the faulty bytes; serviceAll must never raise.  Charset family: a valid JSON message whose Content-Type charset is every single-byte mutation of 'utf-8' "
+         "with the faulty bytes; serviceAll must never raise.  Content-Length family: a valid message whose Content-Length value is every single-byte mutation of '12' - "
+         "delete, duplicate, replace by the C32 bytes and by EVERY byte 0x80-0xFF at each position, high bytes inserted at every position "
+         "(0xB2 0xB3 0xB9 decode to superscript digits, 0xBC-0xBE to fractions), signed / grouped / hex / padded forms - delivered to the middle "
+         "connection of the Valet and of the Porter and to the Patron; same oracle.  Charset family: a valid JSON message whose Content-Type charset is every single-byte mutation of 'utf-8' "
          "or an unknown / non-text / empty / quoted codec name, for a json content type and for a dictable receiver, delivered to the Patron and "
          "to the middle connection of a three-connection Porter (the two places that call dictify); the service call must never raise and the "
          "Porter's healthy connections must be answered.  Oversize family: every line-like element of every seed (request / status line, "
@@ -501,6 +504,61 @@ def work_charset(item):
     return part
 
 
+# --------------------------------------------------------------------------- Content-Length family
+
+CL_BODY = b"hello world!"          # 12 bytes: a two-digit length
+HIGH_SPECIAL = [0xB2, 0xB3, 0xB9, 0xBC, 0xBD, 0xBE, 0x80, 0xA0, 0xFF]   # isdigit()/isnumeric() disagree with ASCII for the first six
+
+
+def content_lengths():
+    """Single-byte mutations of the valid value b'12': delete, duplicate, replace by the C32 bytes and by
+    EVERY high byte 0x80-0xFF at each position, insertion of a high byte at every position.  Header
+    values are decoded as iso-8859-1, so 0xB2 0xB3 0xB9 become superscript digits (str.isdigit() true,
+    int() fails) and 0xBC-0xBE vulgar fractions (isnumeric() true)."""
+    base = b"%d" % len(CL_BODY)
+    out = []
+    for i in range(len(base)):
+        out.append(("del@%d" % i, base[:i] + base[i + 1:]))
+        out.append(("dup@%d" % i, base[:i + 1] + base[i:]))
+        for b in REPL + list(range(0x80, 0x100)):
+            out.append(("rep%02x@%d" % (b, i), base[:i] + bytes([b]) + base[i + 1:]))
+    for i in range(len(base) + 1):
+        for b in HIGH_SPECIAL:
+            out.append(("ins%02x@%d" % (b, i), base[:i] + bytes([b]) + base[i:]))
+    for name in (b"", b"+12", b"-12", b"1_2", b"0x0c", b"12.0", b"1e1", b" 12 ", b"12, 12"):
+        out.append(("value %r" % name.decode("latin-1"), name))
+    seen, res = set(), []
+    for d, v in out:
+        if v not in seen and v != base:
+            seen.add(v)
+            res.append((d, v))
+    return res
+
+
+def work_contentlength(item):
+    target = item[0]
+    FSM = setup()
+    part = core.Part()
+    with core.watchdog(600):
+        for desc, val in content_lengths():
+            if target == "client":
+                data = b"HTTP/1.1 200 OK\r\nContent-Type: text/plain\r\nContent-Length: " + val + b"\r\n\r\n" + CL_BODY
+                out, viol = client_exec(FSM, data, False)
+            else:
+                data = b"POST /k HTTP/1.1\r\nHost: h\r\nContent-Length: " + val + b"\r\n\r\n" + CL_BODY
+                out, viol = server_exec(FSM, data, False) if target == "valet" else porter_exec(FSM, data, None)
+            fault = "Content-Length %s (%s)" % (desc, target)
+            part.evaluations += 1
+            part.nontrivial(repr((target, "content-length", val)))
+            part.outcome("%s:content-length:%s" % (target, out))
+            if viol is not None:
+                group, what = viol
+                part.violation(group, fault, "%s receives %r: %s" % (target, data, what),
+                               dict(side=target, family="content-length", value=val, bytes=data, what=what))
+        part.sample(dict(side=target, family="content-length", value=val, bytes=data, outcome=out))
+    return part
+
+
 # --------------------------------------------------------------------------- driver
 
 _FSM = []
@@ -554,6 +612,8 @@ def setup():
 def work(item):
     if item[0].endswith("-oversize"):
         return work_oversize((item[0].split("-")[0], item[1]))
+    if item[0].endswith("-contentlength"):
+        return work_contentlength((item[0].split("-")[0],))
     if item[0].endswith("-charset"):
         return work_charset((item[0].split("-")[0], item[1]))
     side, si, kind = item
@@ -605,6 +665,7 @@ def run():
     items += [("client", i, k) for i in range(len(RSP_SEEDS)) for k in KINDS]
     # oversize payloads are 64-128 KiB each: dispatch them first, merge them last
     over = [("server-oversize", i, None) for i in range(len(REQ_SEEDS))] + [("client-oversize", i, None) for i in range(len(RSP_SEEDS))]
+    items += [(t + "-contentlength", 0, None) for t in ("valet", "porter", "client")]
     items += [(side + "-charset", variant, None) for side in ("client", "server") for variant in ("json", "dictable")]
     res = core.pmap(work, over + items)
     ck.merge(res[len(over):] + res[:len(over)])
